@@ -340,6 +340,94 @@ def hoist_else_after_leave(modules):
     return count
 
 
+def normalise_empty_containers(modules):
+    """`list()`, `dict()` and `tuple()` without arguments are analysed as the literals `[]`, `{}` and `()` (unless the name is rebound at module
+    level or in an enclosing function).  Returns the number of rewritten calls."""
+    count = 0
+
+    def binds(scope, top):
+        out = set()
+        if not top:
+            a = scope.args
+            out |= {x.arg for x in a.posonlyargs + a.args + a.kwonlyargs} | ({a.vararg.arg} if a.vararg else set()) | ({a.kwarg.arg} if a.kwarg else set())
+        todo = list(scope.body)
+        while todo:
+            n = todo.pop()
+            if isinstance(n, (ast.FunctionDef, ast.AsyncFunctionDef, ast.ClassDef)):
+                out.add(n.name)
+                if isinstance(n, ast.ClassDef) and top:
+                    pass
+                continue
+            if isinstance(n, ast.Name) and isinstance(n.ctx, ast.Store):
+                out.add(n.id)
+            if isinstance(n, (ast.Import, ast.ImportFrom)):
+                out |= {(x.asname or x.name).split('.')[0] for x in n.names}
+            todo += list(ast.iter_child_nodes(n))
+        return out
+
+    def visit(node, shadow):
+        nonlocal count
+        for ch in ast.iter_child_nodes(node):
+            if isinstance(ch, (ast.FunctionDef, ast.AsyncFunctionDef)):
+                visit(ch, shadow | binds(ch, False))
+                continue
+            if isinstance(ch, ast.Call) and isinstance(ch.func, ast.Name) and ch.func.id in ('list', 'dict', 'tuple') and not ch.args and not ch.keywords \
+                    and ch.func.id not in shadow:
+                pos = {k: getattr(ch, k) for k in ('lineno', 'col_offset', 'end_lineno', 'end_col_offset') if hasattr(ch, k)}
+                kind = ch.func.id
+                ch.__class__ = {'list': ast.List, 'dict': ast.Dict, 'tuple': ast.Tuple}[kind]
+                ch.__dict__.clear()
+                ch.__dict__.update(dict(keys=[], values=[], **pos) if kind == 'dict' else dict(elts=[], ctx=ast.Load(), **pos))
+                count += 1
+                continue
+            visit(ch, shadow)
+    for mod in modules.values():
+        visit(mod.tree, binds(mod.tree, True))
+    return count
+
+
+def inline_returned_temporaries(modules):
+    """`v = E` immediately followed by `return v`, with `v` a local that is bound nowhere else and read nowhere else in the function, is analysed
+    as `return E`.  Returns the number of inlined temporaries."""
+    count = 0
+    for mod in modules.values():
+        for fn in ast.walk(mod.tree):
+            if not isinstance(fn, (ast.FunctionDef, ast.AsyncFunctionDef)):
+                continue
+            a = fn.args
+            params = {x.arg for x in a.posonlyargs + a.args + a.kwonlyargs} | ({a.vararg.arg} if a.vararg else set()) | ({a.kwarg.arg} if a.kwarg else set())
+            uses = {}
+            special = set()
+            for n in ast.walk(fn):
+                if isinstance(n, ast.Name):
+                    uses.setdefault(n.id, []).append(n)
+                if isinstance(n, (ast.Global, ast.Nonlocal)):
+                    special.update(n.names)
+                if isinstance(n, ast.ExceptHandler) and n.name:
+                    special.add(n.name)
+            for parent in ast.walk(fn):
+                for field in ('body', 'orelse', 'finalbody'):
+                    lst = getattr(parent, field, None)
+                    if not isinstance(lst, list):
+                        continue
+                    for i in range(len(lst) - 1):
+                        st, nxt = lst[i], lst[i + 1]
+                        if not (isinstance(st, ast.Assign) and len(st.targets) == 1 and isinstance(st.targets[0], ast.Name) and isinstance(nxt, ast.Return)
+                                and isinstance(nxt.value, ast.Name) and nxt.value.id == st.targets[0].id):
+                            continue
+                        name = st.targets[0].id
+                        if name in params or name in special or len(uses.get(name, [])) != 2:
+                            continue
+                        nxt.value = st.value
+                        nxt.lineno, nxt.col_offset = st.lineno, st.col_offset
+                        keep = {k: getattr(st, k) for k in ('lineno', 'col_offset', 'end_lineno', 'end_col_offset') if hasattr(st, k)}
+                        st.__class__ = ast.Pass
+                        st.__dict__.clear()
+                        st.__dict__.update(keep)
+                        count += 1
+    return count
+
+
 class Module:
     def __init__(self, name, path, relpath, src):
         self.name = name
@@ -545,6 +633,8 @@ class Program:
         self.suppress_desugared = desugar_suppress(self.modules)
         self.updates_normalised = normalise_updates(self.modules)
         self.comparisons_normalised = normalise_comparisons(self.modules)
+        self.containers_normalised = normalise_empty_containers(self.modules)
+        self.returns_inlined = inline_returned_temporaries(self.modules)
         self.else_hoisted = hoist_else_after_leave(self.modules)
         self.absorbed = absorb_private_helpers(self.modules)
         self.aliases_resolved = resolve_self_aliases(self.modules)
